@@ -12,15 +12,15 @@ BOUNDS = {"R": "1..4", "D": "1..4", "kappa": "<=1e4", "n": "1, 7, 2000 (structur
 ASSUMPTIONS = [
     "structural oracle: whitening the draws of component r with numpy's Cholesky factor of Sigma_r reproduces, as a multiset, the "
     "standard-normal stream jax.random.normal generates from the same key (any arrangement of the stream is accepted)",
-    "a sampler that fails the structural match is NOT reported: the statistical battery (mean, covariance, cross-component and lag-1 "
-    "correlation within 6 standard errors, KS p-value > 1e-9 at n = 200000) decides instead",
+    "a sampler that fails the structural match is NOT reported: the statistical battery (mean, covariance, cross-component correlation, serial "
+    "dependence at lags 1-8 / reversed / half-shifted order within 6 standard errors, tail counts, KS p-value > 1e-9 at n = 200000) decides instead",
 ]
 
 
 def _pool(tier):
-    base = [(1, 1), (2, 2), (3, 3), (2, 4), (4, 2), (3, 1)]
+    base = [(1, 1), (2, 2), (3, 3), (2, 4), (4, 2), (3, 1), (6, 2), (5, 3)]
     if tier == "thorough":
-        base += [(4, 4), (1, 3), (4, 1), (2, 3)]
+        base += [(4, 4), (1, 3), (4, 1), (2, 3), (7, 1), (6, 3)]
     return base
 
 
@@ -70,9 +70,29 @@ def _statistical(fails, x, mu, Sig, tag):
             p = stats.kstest(w[:, k], "norm").pvalue
             if p < 1e-9:
                 fails.append(Failure(tag + ":ks", f"{tag}: whitened coordinate {k} of component {r} is not standard normal (KS p={p:.2e})"))
-        lag = np.mean(w[1:] * w[:-1], 0) * np.sqrt(n - 1)
-        if np.max(np.abs(lag)) > 6:
-            fails.append(Failure(tag + ":autocorrelation", f"{tag}: lag-1 autocorrelation of component {r} draws {np.max(np.abs(lag)):.1f} s.e."))
+        # independence between draws: serial correlation at several lags (same and different coordinates), pairing of
+        # draw t with draw n-1-t (antithetic constructions) and with draw t + n/2
+        worst_dep, which = 0.0, ""
+        for lagk in (1, 2, 3, 5, 8):
+            cc = (w[lagk:].T @ w[:-lagk]) / np.sqrt(n - lagk)
+            if np.max(np.abs(cc)) > worst_dep:
+                worst_dep, which = float(np.max(np.abs(cc))), f"lag {lagk}"
+        for name, other in (("reversed order", w[::-1]), ("half shift", np.roll(w, n // 2, axis=0))):
+            if n % 2 == 1 and name == "reversed order":
+                a_, b_ = np.delete(w, n // 2, 0), np.delete(other, n // 2, 0)  # the middle draw pairs with itself
+            else:
+                a_, b_ = w, other
+            cc = (a_.T @ b_) / np.sqrt(a_.shape[0]) / np.sqrt(2.0)  # each pair is counted twice
+            if np.max(np.abs(cc)) > worst_dep:
+                worst_dep, which = float(np.max(np.abs(cc))), name
+        if worst_dep > 6:
+            fails.append(Failure(tag + ":serial_dependence", f"{tag}: draws of component {r} are dependent ({which}: {worst_dep:.1f} s.e.)"))
+        # tails: counts beyond 3, 3.5 and 4 standard deviations (clipping / truncation of rare values)
+        for thr, pt in ((3.0, 2.6997960632601866e-03), (3.5, 4.6525815807105e-04), (4.0, 6.334248366623996e-05)):
+            cnt = float(np.sum(np.abs(w) > thr))
+            exp_ = pt * w.size
+            if abs(cnt - exp_) > 6 * np.sqrt(exp_ * (1 - pt)) + 1:
+                fails.append(Failure(tag + ":tails", f"{tag}: component {r}: {cnt:.0f} whitened values beyond {thr} sd, expected {exp_:.1f}"))
         for r2 in range(r + 1, R):
             w2 = np.linalg.solve(L[r2], (x[:, r2, :] - mu[r2]).T).T
             cc = (w.T @ w2) / np.sqrt(n)
@@ -160,6 +180,6 @@ def _labels(case):
 SUBS = [
     Sub("structural", _pool, _strategy(False), _run, _nontrivial, _labels,
         examples={"quick": 70, "thorough": 400}, shards={"quick": 6, "thorough": 10}, rule="D>=2, R>=2, |corr|>=0.5"),
-    Sub("statistical", lambda tier: _pool(tier)[:4], _strategy(True), _run, _nontrivial, _labels,
-        examples={"quick": 2, "thorough": 10}, shards={"quick": 4, "thorough": 4}, rule="as above; n = 200000"),
+    Sub("statistical", lambda tier: _pool(tier)[1:8:2] + _pool(tier)[6:7], _strategy(True), _run, _nontrivial, _labels,
+        examples={"quick": 2, "thorough": 6}, shards={"quick": 5, "thorough": 5}, rule="as above; n = 200000"),
 ]
